@@ -27,7 +27,7 @@ CONSTANTS GraphRels, FunRels, MaxN,
           GraphMod,    \* graphs on MaxN nodes are sampled: kept iff (code + Seed) % GraphMod = 0
           Decors, DecorMod,
           FunMod,      \* functional graphs on MaxN nodes are sampled the same way
-          OutlineNs, OutlineMod,
+          OutlineNs, OutlineMod, Outline1Mod,
           DepthRels, SynKinds, Limit, BigDepth, HugeDepth,
           MutTargets, MutOps, MutK,
           PdfBases, PdfK, PdfMod, TruncK,
@@ -56,12 +56,20 @@ FunShapes ==
   UNION {{[fam |-> "fun", rel |-> r, n |-> n, succ |-> f] :
             r \in FunRels, f \in {g \in [1..n -> 0..(n + 2)] : n < MaxN \/ FunMod = 1 \/ (FunCode(n, g) + Seed) % FunMod = 0}} : n \in 1..MaxN}
 
+(* outline: targets 0 = none, 1..n = items, n+1 = the outlines root.  rfirst/last are the root's First/Last,     *)
+(* first/ilast/next/prev the items' pointers.  One item: every pointer is free (all 486 graphs); more items:     *)
+(* an item's Last equals its First and the graphs are sampled.  rt: the root dictionary also carries a title and *)
+(* a destination, so that it reads like an item when it is reached as one.                                       *)
 OutT(n) == 0..(n + 1)
-OutCode(n, s) == SumSet({i * 100 + s.first[i] * 17 + s.next[i] * 5 + s.prev[i] : i \in 1..n}) + s.last
-PrevSelf(n, s) == \E i \in 1..n : s.prev[i] = i
+OutCode(n, s) == SumSet({i * 100 + s.first[i] * 17 + s.next[i] * 5 + s.prev[i] : i \in 1..n}) + s.last * 3 + s.rfirst
 OutlineShapes ==
-  UNION {{s \in [fam : {"outline"}, n : {n}, first : [1..n -> OutT(n)], next : [1..n -> OutT(n)], prev : [1..n -> OutT(n)], last : 1..n] :
-            OutlineMod = 1 \/ PrevSelf(n, s) \/ (OutCode(n, s) + Seed) % OutlineMod = 0} : n \in OutlineNs}
+  UNION {{s \in [fam : {"outline"}, n : {n}, rt : BOOLEAN, rfirst : {1, n + 1}, last : OutT(n), first : [1..n -> OutT(n)],
+                 ilast : [1..n -> OutT(n)], next : [1..n -> OutT(n)], prev : [1..n -> OutT(n)]] :
+            \/ /\ n = 1
+               /\ \/ Outline1Mod = 1
+                  \/ (OutCode(n, s) + s.ilast[1] + Seed) % Outline1Mod = 0
+                  \/ (s.rt /\ s.rfirst = n + 1 /\ s.prev[1] = 1)     \* a root that reads like an item and a /Prev self loop
+            \/ (n > 1 /\ s.ilast = s.first /\ s.rfirst = 1 /\ ~s.rt /\ (OutlineMod = 1 \/ (OutCode(n, s) + Seed) % OutlineMod = 0))} : n \in OutlineNs}
 
 DepthsOf(k) == {Limit - 1, Limit, Limit + 1, 10 * Limit, BigDepth} \cup (IF k \in SynKinds THEN {HugeDepth} ELSE {})
 DepthShapes == UNION {{[fam |-> "depth", rel |-> k, depth |-> d] : d \in DepthsOf(k)} : k \in DepthRels \cup SynKinds}
@@ -83,7 +91,7 @@ TruncShapes == [fam : {"trunc"}, base : PdfBases, k : 0..(TruncK - 1)]
 GraphLike(s) == s.fam \in {"graph", "fun", "outline"}
 Succs(s, i) == CASE s.fam = "graph"   -> s.adj[i]
                  [] s.fam = "fun"     -> IF s.succ[i] \in 1..s.n THEN {s.succ[i]} ELSE {}
-                 [] s.fam = "outline" -> {s.first[i], s.next[i], s.prev[i]} \cap (1..s.n)
+                 [] s.fam = "outline" -> {s.first[i], s.ilast[i], s.next[i], s.prev[i]} \cap (1..s.n)
                  [] OTHER             -> {}
 Edges(s) == IF GraphLike(s) THEN {<<i, j>> \in (1..s.n) \X (1..s.n) : j \in Succs(s, i)} ELSE {}
 SetSeq(S) == LET RECURSIVE f(_)
